@@ -586,7 +586,8 @@ func (h *hist) setKeys(ents []keyEnt, storm *bool) error {
 		return nil
 	}
 	h.sentinel = fmt.Sprintf("sentinel-%d-%s", h.gen, randStr(h.rnd, 12, alnum))
-	vals = append(vals, h.sentinel+"?read=user", "?read=admin&write=admin", "%zz?read=admin")
+	// entries that must be ignored: no key, an unparsable one, and one whose key contains a colon (read as an opaque URL)
+	vals = append(vals, h.sentinel+"?read=user", "?read=admin&write=admin", "%zz?read=admin", "app:s3cret?read=admin&write=admin")
 	defer func() {
 		if oldSentinel != "" {
 			h.stale = api.VerifHasAPIKey(oldSentinel)
@@ -604,7 +605,7 @@ func (h *hist) setKeys(ents []keyEnt, storm *bool) error {
 			for i := 0; i < stormRounds && err == nil; i++ {
 				v := vals
 				if i < stormRounds-1 && i%2 == 1 {
-					v = vals[len(vals)-3:]
+					v = vals[len(vals)-4:]
 				}
 				err = setOption(api.CfgAPIKeys, v)
 			}
